@@ -340,6 +340,10 @@ namespace xtl
         friend class xdynamic_bitset_base<B>;
     };
 
+    // exchanges the values of the two designated bits (the arguments are proxies, taken by value)
+    template <class B>
+    void swap(xbitset_reference<B, false> lhs, xbitset_reference<B, false> rhs) noexcept;
+
     /********************
      * xbitset_iterator *
      ********************/
@@ -1301,6 +1305,14 @@ namespace xtl
     inline void xbitset_reference<B, C>::reset() noexcept
     {
         m_block &= ~m_mask;
+    }
+
+    template <class B>
+    inline void swap(xbitset_reference<B, false> lhs, xbitset_reference<B, false> rhs) noexcept
+    {
+        bool tmp = lhs;
+        lhs = bool(rhs);
+        rhs = tmp;
     }
 
     /***********************************
